@@ -370,15 +370,12 @@ func c19(c *Ctx) {
 			c.requireCross(site(v[0])+" delete-only", v[0], del, "request.Operation == DELETE")
 			// all other returns are Errored
 			bad := 0
-			for _, b := range h.Blocks {
-				if r, ok := b.Instrs[len(b.Instrs)-1].(*ssa.Return); ok {
-					rv := cfgx.ReturnValue(r, 0)
-					if rv == v[0].Value() {
-						continue
-					}
-					if !flow.IsCallTo(rv, "sigs.k8s.io/controller-runtime/pkg/webhook/admission.Errored") {
-						bad++
-					}
+			for _, rv := range cfgx.ReturnedValues(h, 0) {
+				if rv == v[0].Value() {
+					continue
+				}
+				if !flow.IsCallTo(rv, "sigs.k8s.io/controller-runtime/pkg/webhook/admission.Errored") {
+					bad++
 				}
 			}
 			c.R.Check(bad == 0, load.FuncName(h)+": other operations rejected", c.pos(h.Pos()), "every other path returns admission.Errored", "an operation other than DELETE is not rejected")
